@@ -14,7 +14,7 @@ from pyvc.ty import SV, ANY, AnyS
 from pyvc.util import native_file
 
 PROPERTY = 'C16'
-UNITS = ['C16', 'C03']
+UNITS = ['C16', 'C03', 'C02']       # C02: the driver applies a terminal callback to each shifted token itself (not to an equal-looking earlier one)
 TRUSTED = [
     "user callbacks are pure functions of their arguments: TT / TK / CUL / CU1 / ATTR are uninterpreted functions (the property's own premise)",
     "getattr(obj, computed_name, default) is modelled by ATTR(obj, name)",
